@@ -262,3 +262,17 @@ Proof.
 Qed.
 
 End LeftOperand.
+
+(* the hypotheses of the left-operand theorems are met in a real parse: e = e '+' 'a' | 'a' on "a+a+a", in the state where the
+   seed for (0, e) is 'a' ending at 1, the recursive alternative collects ['a'; '+'; 'a'] - the seed first *)
+From TatsuV Require Import Engine.LrecProof.
+Definition w_seed_state : gstate := set_results gstate0 [((0, 0), OOk l_a 1)].
+Example left_operand_witness :
+  get_rule l_rules 0 = nth_error l_rules 0 /\
+  lookup (results w_seed_state) (0, 0) = Some (OOk l_a 1) /\
+  exists f' st',
+    feval l_text (fun _ _ => None) (fun _ => false) (fun _ => false) (fun c => c) (fun c => c) l_ic [] l_rules l_ec
+          (fun _ _ => ANone) (fun _ => 0) 10 (Seq [Call 0; Leaf (LTok [43%N]); Leaf (LTok [97%N])]) (newf 0) w_seed_state
+      = (Ok (VList false [l_a; l_plus; l_a]) f', st')
+    /\ items (cst f') = [l_a; l_plus; l_a].
+Proof. split; [reflexivity|]. split; [reflexivity|]. eexists. eexists. split; vm_compute; reflexivity. Qed.
